@@ -206,6 +206,8 @@ class C34(Prop):
                 return {"n": n, "t": ty, "v": {"name": "copy_" + prev["name"], "content": prev["content"]}}
             v = {"name": rng.choice(["a.txt", "b.dat", "c", "data.csv", "e f.txt"]) if rng.random() < 0.5 else f"in{idx}.txt",
                  "content": rng.choice(["", "hello\n", "x", "line1\nline2\n"]) + rng.choice(self.WORDS) * rng.randrange(0, 3)}
+            if any(q["name"] == v["name"] for q in pool):   # one path, one content (same path again is the case above)
+                v["name"] = f"in{idx}.txt"
             pool.append(v)
             return {"n": n, "t": ty, "v": v}
         if ty == "string":
